@@ -259,6 +259,7 @@ func c03Property(t *rapid.T) {
 			cfg.settings[config.DataDictionary] = spec + dictForBegin[cfg.begin] + ".xml"
 		}
 	}
+	drawExtras(t, c, &cfg)
 	s := newSim(t, c, cfg)
 	defer s.close()
 	if !s.logon(0) {
